@@ -1,3 +1,5 @@
-//! placeholder
-use crate::common::*;
-pub fn run_c13(tier: Tier) -> i32 { let _ = tier; eprintln!("not implemented"); 2 }
+pub mod ws;
+pub mod broker;
+pub mod threaded_h;
+mod run;
+pub use run::run_c13;
